@@ -82,7 +82,7 @@ class Interp(ExprMixin):
         return self.frames[-1]
 
     def site(self, node) -> Site:
-        return Site(self.frame.module.short, self.frame.qual, getattr(node, "lineno", 0))
+        return Site(self.frame.module.short, self.frame.qual, getattr(node, "lineno", 0) if node is not None else 0)
 
     def stack(self) -> Tuple[Site, ...]:
         return tuple(f.call_site for f in self.frames if f.call_site is not None)
@@ -168,13 +168,11 @@ class Interp(ExprMixin):
     def assign(self, tg, v, st):
         if isinstance(tg, ast.Name):
             self.frame.env[tg.id] = v
-            if isinstance(v, (PyList, PyDict)) and v.origin is None:
-                v.origin = ("local", tg.id, self.frame.qual)
         elif isinstance(tg, (ast.Tuple, ast.List)):
             self.destructure(tg, v, st)
         elif isinstance(tg, ast.Attribute):
             base = self.to_term(self.eval(tg.value))
-            if isinstance(v, (PyList, PyDict)) and (v.origin is None or v.origin[0] == "local"):
+            if isinstance(v, (PyList, PyDict)) and v.origin is None:
                 v.origin = ("attr", base, tg.attr)
             self.heap[(base, tg.attr)] = v
             self.event("setattr", {"obj": base, "attr": tg.attr, "value": self.to_term(v)}, st)
